@@ -164,6 +164,13 @@ func (v *FnVerifier) entryArr(name string, s Sort) Term {
 	if !v.declared[name] {
 		v.declared[name] = true
 		v.arrAxioms(t, s, v.now0)
+		// the heap is closed at function entry: every reference stored anywhere names an object
+		// that already exists (or nil)
+		if s.IsArray() {
+			if idx, val := s.ArrParts(); idx == SRef && val == SRef {
+				v.ctx.AssertRaw(fmt.Sprintf("(assert (forall ((r Ref)) (! (< (birth (select %s r)) %s) :pattern ((select %s r)))))", t.S, v.now0.S, t.S))
+			}
+		}
 	}
 	return t
 }
